@@ -264,7 +264,8 @@ namespace nmtools::utils
                 using t_type = meta::get_element_type_t<T>;
                 using u_type = meta::get_element_type_t<U>;
                 using common_t = meta::common_type_t<t_type,u_type,E>;
-                auto abs_diff = constexpr_fabs(static_cast<t_type>(t)-static_cast<u_type>(u));
+                // subtract in the common type (it includes the eps type): size_t - int would wrap
+                auto abs_diff = constexpr_fabs(static_cast<common_t>(t)-static_cast<common_t>(u));
                 auto result = abs_diff < static_cast<common_t>(eps);
                 #if NMTOOLS_ISCLOSE_NAN_HANDLING
                 result = result || (math::isnan(static_cast<common_t>(t)) && math::isnan(static_cast<common_t>(u)));
